@@ -17,6 +17,10 @@ CONSTANTS
   Gater = "throttling"
   MixMode = "move"
   ScoreFree = {p1, p2, p3}
+  D = 4
+  Dlo = 2
+  Dhi = 5
+  Dscore = 2
   Bug = "none"
 INVARIANT TypeOK
 INVARIANT Inv_All
